@@ -734,3 +734,142 @@ def c08_n7(ctx):
         yield ok("C08-N7", "max_nak_num:per-request", at(f), "divided by %s = encoded_len of one request" % sorted(per))
     else:
         yield bad("C08-N7", "max_nak_num:per-request", at(f), "divided by %s but one request takes %s" % (sorted(per), sorted(req_forms)))
+
+
+# ================================================================ C07-S6 / S7, C10-K5 / K6
+@rule("C07", "C07-S6", 1, "queued retransmission requests are de-duplicated on the whole request (start and end), never on a part of it")
+def c07_s6(ctx):
+    fns = impl_and_closures(ctx, SEND)
+    n = 0
+    for f in fns:
+        eb = ExprBuilder(ctx.prog, f)
+        for b, t in f.all_calls():
+            e = eb.call(b, t)
+            cal = callee_name(e) or ""
+            if not cal.endswith("VecDeque::retain") or not e[3] or "self.naks" not in expr_str(e[3][0]):
+                continue
+            n += 1
+            clo = e[3][1] if len(e[3]) > 1 else None
+            key = "SendTransaction::%s:naks.retain" % (f.name if f.kind != "Closure" else short(f.root or f.norm).split("::")[-1])
+            body = None
+            if clo is not None and clo[0] == "agg" and clo[1] == "closure":
+                c = ctx.prog.by_norm.get(clo[2])
+                if c is not None:
+                    ebc = ExprBuilder(ctx.prog, c)
+                    items = [vn for vn, l, pj in c.var_places if not pj and 2 <= l <= c.arg_count]
+                    rets = [sstr(ebc._def_expr(d, 0, (0,))) for d in c.defs(0) if d[0] in ("assign", "call")]
+                    body = rets
+                    if len(rets) == 1 and items and re.match(r"^HashSet::insert\(\w+, %s\)$" % re.escape(items[0]), rets[0]):
+                        yield ok("C07-S6", key, at(f, t["span"]["line"]), "retain(|e| seen.insert(e.clone())): keyed on the whole request")
+                        continue
+            yield bad("C07-S6", key, at(f, t["span"]["line"]), "the retransmission queue is filtered by %s, not by first occurrence of the whole (start, end) request: a request sharing only its start with another one is dropped and never answered" % body)
+    if n == 0:
+        yield ok("C07-S6", "SendTransaction:no-retain", "-", "the sender's queue is never filtered", nontrivial=False)
+
+
+@rule("C07", "C07-S7", 1, "the first pass ends (EOF prepared) only when the file cursor has reached the file length")
+def c07_s7(ctx):
+    f = ctx.one("C07-S7", "SendTransaction::send_pdu")
+
+    def track(key):
+        if key[0] == "val":
+            return key[1] == "self.send_state"
+        if key[0] == "expr":
+            return key[1].startswith("Eq(") and "stream_position" in key[1]
+        return False
+
+    fl = Flow(ctx.prog, ctx.mods, f, track)
+    n = 0
+    from common import val_in
+
+    for f2, b, t, d, r in call_sites([f], ends("SendTransaction::prepare_eof"), ctx.prog):
+        worlds = fl.at_term(b)
+        # only the call made while sending data (not the no-file transaction in SendMetadata)
+        data_w = [w for w in worlds if val_in(dict(w), "self.send_state", {"SendData"})]
+        if not data_w:
+            continue
+        n += 1
+        key = "SendTransaction::send_pdu:end-of-first-pass"
+
+        def guard(dw):
+            for k, (pos, s) in dw.items():
+                if k[0] == "expr" and k[1].startswith("Eq(") and pos and s == frozenset([1]):
+                    if "Seek>::stream_position(" in k[1] and "Metadata::len(" in k[1] and "File::metadata(" in k[1]:
+                        return True
+            return False
+
+        good, w = all_worlds_satisfy(frozenset(data_w), guard)
+        if good:
+            yield ok("C07-S7", key, at(f, t["span"]["line"]), "EOF prepared under stream_position() == metadata().len()")
+        else:
+            yield bad("C07-S7", key, at(f, t["span"]["line"]), "in the SendData phase the EOF is prepared without the test `cursor == file length` on the path (state %s): a retransmission read near the end of the file can end the first pass early" % (world_str(w) if w is not None else "?"))
+    if n == 0:
+        raise Anchor("C07-S7", "prepare_eof call in the SendData arm of send_pdu")
+
+
+@rule("C10", "C10-K5", 1, "every successful return of the sender's prepare_eof has stored a fresh EOF built from the current condition and marked to be sent", also=("C07",))
+def c10_k5(ctx):
+    f = ctx.one("C10-K5", "SendTransaction::prepare_eof")
+    eb = ExprBuilder(ctx.prog, f)
+    stores = set()
+    for _f, b, j, s, ps in field_writes([f], "self.eof"):
+        if j < 0 or ps != "self.eof":
+            continue
+        e = simp(eb.rvalue(s["rv"]))
+        txt = expr_str(e)
+        if re.match(r"^option::Option::Some\{tuple\{pdu::EndOfFile::EndOfFile\{self\.condition, .*\}, const\(1\)\}\}$", txt):
+            stores.add(b)
+    err = {x for x, tt in f.all_calls() if (ctx.prog.callee_of(tt)[0] or "").endswith("FromResidual::from_residual")}
+    reach = f.reachable(0, avoid=stores | err)
+    rets = [x for x in reach if f.blocks[x]["term"]["k"] == "return"]
+    if stores and not rets:
+        yield ok("C10-K5", "SendTransaction::prepare_eof", at(f), "every Ok path stores Some((EndOfFile{condition: self.condition, ..}, true))")
+    else:
+        yield bad("C10-K5", "SendTransaction::prepare_eof", at(f), "prepare_eof can return Ok without storing a fresh EOF carrying the current condition (a cancel after the normal EOF was built would re-send EOF(NoError))")
+
+
+@rule("C10", "C10-K6", 1, "the sender asks to be woken in every phase in which its timeout handler has something to do", also=("C17",))
+def c10_k6(ctx):
+    from core import dominators
+
+    ht = ctx.one("C10-K6", "SendTransaction::handle_timeout")
+    ut = ctx.one("C10-K6", "SendTransaction::until_timeout")
+    names = ctx.prog.variant_names("cfdp_daemon::transaction::send::SendState")
+    if not names:
+        raise Anchor("C10-K6", "enum SendState")
+
+    def arms(fn):
+        eb = ExprBuilder(ctx.prog, fn)
+        for b in fn.live_blocks():
+            t = fn.blocks[b]["term"]
+            if t["k"] == "switch":
+                e = eb.operand(t["discr"])
+                if e[0] == "discr" and expr_str(e[1]) == "self.send_state":
+                    return b, t
+        return None
+
+    a, u = arms(ht), arms(ut)
+    if not a or not u:
+        raise Anchor("C10-K6", "dispatch on send_state in handle_timeout / until_timeout")
+    # phases in which handle_timeout acts: explicit arms whose region contains a call
+    active = set()
+    for v, tb in a[1]["targets"]:
+        reg = ht.reachable(tb, avoid=[a[1]["otherwise"]])
+        if any(ht.blocks[x]["term"]["k"] == "call" for x in reg):
+            active.add(names.get(v, str(v)))
+    # phases in which until_timeout returns the timer's deadline
+    armed = set()
+    ebu = ExprBuilder(ctx.prog, ut)
+    others_reach = ut.reachable(u[1]["otherwise"])
+    default_timer = any(ut.blocks[x]["term"]["k"] == "call" and (ctx.prog.callee_of(ut.blocks[x]["term"])[1] or "").endswith("Timer::until_timeout") for x in others_reach)
+    for v, tb in u[1]["targets"]:
+        reg = ut.reachable(tb)
+        if any(ut.blocks[x]["term"]["k"] == "call" and (ctx.prog.callee_of(ut.blocks[x]["term"])[1] or ctx.prog.callee_of(ut.blocks[x]["term"])[0] or "").endswith("Timer::until_timeout") for x in reg):
+            armed.add(names.get(v, str(v)))
+    if default_timer:
+        armed |= set(names.values()) - {names.get(v, str(v)) for v, _ in u[1]["targets"]}
+    missing = sorted(active - armed)
+    if missing:
+        yield bad("C10-K6", "SendTransaction::until_timeout", at(ut), "handle_timeout acts in phase(s) %s but until_timeout does not return the timer deadline there: the transaction is never woken (no retransmission, no limit, never ends)" % missing)
+    else:
+        yield ok("C10-K6", "SendTransaction::until_timeout", at(ut), {"active_phases": sorted(active), "armed_phases": sorted(armed)})
